@@ -144,8 +144,7 @@ Definition scan_exponent (r2 : string) : option Z :=
       else None
   end.
 
-Definition rust_float_syntax (t : string) : option fnum :=
-  let '(s, r) := split_sign t in
+Definition rust_float_unsigned (s : bool) (r : string) : option fnum :=
   let lr := lower_s r in
   if String.eqb lr "inf" || String.eqb lr "infinity" then Some (FInf s)
   else if String.eqb lr "nan" then Some FNan
@@ -157,6 +156,8 @@ Definition rust_float_syntax (t : string) : option fnum :=
            | Some ex => Some (FDec s (digits_val (ip ++ fp) 0) (ex - slen fp))
            end
        end.
+Definition rust_float_syntax (t : string) : option fnum :=
+  let '(s, r) := split_sign t in rust_float_unsigned s r.
 
 Definition fnum_value (f : fnum) : num :=
   match f with
